@@ -117,7 +117,7 @@ func genDecCase(r *rand.Rand, big bool) ([]byte, []string) {
 			}
 			switch mt {
 			case 2, 3:
-				l := []int{0, 1, 23, 24, 255, 256, 300}[r.Intn(7)]
+				l := []int{0, 1, 23, 24, 255, 256, 300, 511, 512, 513, 1023, 1024, 1025, 4095, 4096, 4097}[r.Intn(16)]
 				if big && r.Intn(8) == 0 {
 					l = []int{65535, 65536}[r.Intn(2)]
 				}
